@@ -397,6 +397,11 @@ func (l *Lin) addCond(s *system, cond ssa.Value, truth bool) {
 		if u, ok := cond.(*ssa.UnOp); ok && u.Op == token.NOT {
 			l.addCond(s, u.X, !truth)
 		}
+		if call, ok := cond.(*ssa.Call); ok && truth {
+			for _, f := range l.PredicateFacts(call) {
+				s.add(f)
+			}
+		}
 		return
 	}
 	// slice == nil  =>  len == 0, cap == 0
@@ -796,6 +801,86 @@ func (l *Lin) prove(at ssa.Instruction, extra []edgeCond, x, y Term, k int64, de
 	if depth >= 4 {
 		return false
 	}
+	// builtin min / max
+	for side, t := range []Term{x, y} {
+		call, ok := t.V.(*ssa.Call)
+		if !ok || t.K != TVal {
+			continue
+		}
+		name := BuiltinName(&call.Call)
+		if name != "min" && name != "max" {
+			continue
+		}
+		// side 0: need an upper bound of t; side 1: need a lower bound of t
+		needAll := (side == 0 && name == "max") || (side == 1 && name == "min")
+		okAll, okAny := true, false
+		for _, a := range call.Call.Args {
+			at2, ao := l.Expr(a)
+			var r bool
+			if side == 0 {
+				r = l.prove(at, extra, at2, y, k-ao, depth+1)
+			} else {
+				r = l.prove(at, extra, x, at2, k+ao, depth+1)
+			}
+			okAll = okAll && r
+			okAny = okAny || r
+		}
+		if (needAll && okAll) || (!needAll && okAny) {
+			return true
+		}
+	}
+	// the integer result of a function of the scope: a constant bound holds if it holds at every return
+	for side, t := range []Term{x, y} {
+		other := y
+		if side == 1 {
+			other = x
+		}
+		if t.K != TVal || other.K != TZero || l.depth > 2 {
+			continue
+		}
+		var call *ssa.Call
+		idx := 0
+		switch v := t.V.(type) {
+		case *ssa.Call:
+			call = v
+		case *ssa.Extract:
+			if c2, ok := v.Tuple.(*ssa.Call); ok {
+				call, idx = c2, v.Index
+			}
+		}
+		if call == nil {
+			continue
+		}
+		callee := StaticCallee(call)
+		if callee == nil || !l.P.InScope(callee) || callee == l.Fn || len(callee.Blocks) == 0 {
+			continue
+		}
+		sub := NewLin(l.P, callee, l.Mods, l.Summary)
+		sub.depth = l.depth + 1
+		all, n := true, 0
+		for _, b := range callee.Blocks {
+			ret, ok := b.Instrs[len(b.Instrs)-1].(*ssa.Return)
+			if !ok || idx >= len(ret.Results) || b == callee.Recover {
+				continue
+			}
+			n++
+			rt, ro := sub.Expr(ret.Results[idx])
+			var r bool
+			if side == 0 {
+				r = sub.prove(ret, nil, rt, Zero, k-ro, 1)
+			} else {
+				r = sub.prove(ret, nil, Zero, rt, k+ro, 1)
+			}
+			if !r {
+				all = false
+				break
+			}
+		}
+		if all && n > 0 {
+			l.Last = fmt.Sprintf("%s bounded at every return of %s", t, FuncName(callee))
+			return true
+		}
+	}
 	// split a merge on the left (need an upper bound of x) or on the right (need a lower bound of y)
 	for side, t := range []Term{x, y} {
 		edges, preds, ok := l.mergeEdges(t)
@@ -907,4 +992,162 @@ func (l *Lin) memTerm(k TermKind, m *MemVal) Term {
 		return l.term(k, m.Val)
 	}
 	return Term{K: k, M: m}
+}
+
+// PredicateFacts: cond is a call of a boolean helper of the scope (e.g. reader.fits(size)); returns the
+// comparisons, translated into the caller's terms, that hold whenever the helper returns true. Only
+// comparisons over the helper's parameters, constants and fields of pointer parameters that neither the
+// helper nor the caller modifies are translated.
+func (l *Lin) PredicateFacts(call *ssa.Call) []fact {
+	callee := StaticCallee(call)
+	if callee == nil || !l.P.InScope(callee) || len(callee.Blocks) == 0 || callee.Signature.Results().Len() != 1 {
+		return nil
+	}
+	if bt, ok := callee.Signature.Results().At(0).Type().Underlying().(*types.Basic); !ok || bt.Kind() != types.Bool {
+		return nil
+	}
+	sub := NewLin(l.P, callee, l.Mods, l.Summary)
+	// conditions that hold on a given (block, via edge) when the result is true
+	type cond struct {
+		v     ssa.Value
+		truth bool
+	}
+	var conds []cond
+	var rets []*ssa.Return
+	for _, b := range callee.Blocks {
+		if r, ok := b.Instrs[len(b.Instrs)-1].(*ssa.Return); ok {
+			rets = append(rets, r)
+		}
+	}
+	if len(rets) != 1 {
+		return nil
+	}
+	ret := rets[0]
+	var collect func(v ssa.Value, at *ssa.BasicBlock) bool
+	dominating := func(at *ssa.BasicBlock) {
+		for _, b := range callee.Blocks {
+			iff, ok := b.Instrs[len(b.Instrs)-1].(*ssa.If)
+			if !ok {
+				continue
+			}
+			for idx := 0; idx < 2; idx++ {
+				if EdgeDominates(b, idx, at) {
+					conds = append(conds, cond{iff.Cond, idx == 0})
+				}
+			}
+		}
+	}
+	collect = func(v ssa.Value, at *ssa.BasicBlock) bool {
+		switch x := v.(type) {
+		case *ssa.Const:
+			return false // a constant result contributes no true-path here (false) or is unconditional (true): skip
+		case *ssa.Phi:
+			nTrue := 0
+			for i, e := range x.Edges {
+				if c, ok := e.(*ssa.Const); ok && c.Value != nil && c.Value.ExactString() == "false" {
+					continue
+				}
+				nTrue++
+				if nTrue > 1 {
+					return false // a disjunction: nothing is implied
+				}
+				pred := x.Block().Preds[i]
+				dominating(pred)
+				if iff, ok := pred.Instrs[len(pred.Instrs)-1].(*ssa.If); ok {
+					for idx, sc := range pred.Succs {
+						if sc == x.Block() && pred.Succs[0] != pred.Succs[1] {
+							conds = append(conds, cond{iff.Cond, idx == 0})
+						}
+					}
+				}
+				if _, isC := e.(*ssa.Const); !isC {
+					conds = append(conds, cond{e, true})
+				}
+			}
+			return nTrue == 1
+		case *ssa.BinOp:
+			dominating(at)
+			conds = append(conds, cond{x, true})
+			return true
+		}
+		return false
+	}
+	if !collect(ret.Results[0], ret.Block()) {
+		return nil
+	}
+	// translate
+	translate := func(t Term, off int64) (Term, int64, bool) {
+		switch {
+		case t.K == TZero:
+			return t, off, true
+		case t.V != nil:
+			if p, ok := t.V.(*ssa.Parameter); ok {
+				for i, q := range callee.Params {
+					if q == p && i < len(call.Call.Args) {
+						switch t.K {
+						case TVal:
+							ct, co := l.Expr(call.Call.Args[i])
+							return ct, co + off, true
+						case TLen:
+							return l.LenOf(call.Call.Args[i]), off, true
+						case TCap:
+							return l.CapOf(call.Call.Args[i]), off, true
+						}
+					}
+				}
+			}
+			return t, off, false
+		case t.M != nil && t.M.Kind == MEntry:
+			// field of a pointer parameter: find the caller's view of the same field of the argument
+			bp, ok := t.M.Base.(*ssa.Parameter)
+			if !ok {
+				return t, off, false
+			}
+			for i, q := range callee.Params {
+				if q != bp || i >= len(call.Call.Args) {
+					continue
+				}
+				arg := call.Call.Args[i]
+				for _, mv := range l.FM.Loads {
+					if mv.Kind == MEntry && mv.Field == t.M.Field && mv.Base == arg {
+						return Term{K: t.K, M: mv}, off, true
+					}
+				}
+			}
+		}
+		return t, off, false
+	}
+	var out []fact
+	for _, cd := range conds {
+		tmp := &system{idx: map[string]int{}, why: map[[2]int]string{}}
+		tmp.id(Zero)
+		sub.addCond(tmp, cd.v, cd.truth)
+		for i := range tmp.terms {
+			for j := range tmp.terms {
+				if i == j || tmp.d[i][j] >= inf {
+					continue
+				}
+				xt, xo, ok1 := translate(tmp.terms[i], 0)
+				yt, yo, ok2 := translate(tmp.terms[j], 0)
+				if ok1 && ok2 {
+					out = append(out, fact{xt, yt, tmp.d[i][j] - xo + yo, "predicate " + FuncName(callee) + " returned true"})
+				}
+			}
+		}
+	}
+	return out
+}
+
+// PredicateFactStrings renders PredicateFacts in the canonical "x - y <= k" form.
+func (l *Lin) PredicateFactStrings(call *ssa.Call) []string {
+	var out []string
+	seen := map[string]bool{}
+	for _, f := range l.PredicateFacts(call) {
+		str := fmt.Sprintf("%s - %s <= %d", f.x, f.y, f.k)
+		if !seen[str] {
+			seen[str] = true
+			out = append(out, str)
+		}
+	}
+	return out
 }
